@@ -34,5 +34,6 @@ Extraction "model.ml"
   nearest_freq dir_index freq_index dirfac source_dirfac recv_dirfac sample_pts sample_conn
   load_stokes_entries newton_cotes_4th stokes_integration stokes_nocut coincidence_check
   universal_branch patch2patch_ff ff_full room_scene room_source room_receiver room_mono
-  rm_patch_pts round_he lagrange3 poly_integration3 area_under_curve nusselt_analog grid_nx grid_nz
-  surf_grid nusselt_integration nusselt_ff universal_ff_full patch2patch_ff_full ostep otrace orun init restore oeq to_dict ocheck get all_fields dict_fields.
+  rm_patch_pts round_he lagrange3 poly_integration3 area_under_curve nusselt_analog grid_nx
+  grid_nz surf_grid nusselt_integration nusselt_ff universal_ff_full patch2patch_ff_full ostep
+  otrace orun init restore oeq to_dict ocheck get all_fields dict_fields.
